@@ -23,9 +23,10 @@ ASSUMPTIONS = ["colours come from a concrete palette (channel arithmetic stays c
                "two different keys with equal priority: the statement says 'highest-priority entry'; ties are assumed away",
                "a command that re-uses a key with a lower priority than that key's existing entry is ignored by the code and the statement is silent: assumed away",
                "an operation exactly at a fade end is assumed away"]
-BUDGET = {"quick": 100, "thorough": 600}
+BUDGET = {"quick": 130, "thorough": 600}
 
 PALETTE = [(255, 0, 0), (0, 0, 255), (100, 100, 100), (255, 255, 255), (40, 120, 200)]
+PALETTE_B = [(200, 200, 200), (100, 100, 100), (50, 50, 50), (255, 0, 0), (100, 200, 50)]
 KEYS = ["a", "b", "c"]
 
 
@@ -123,7 +124,16 @@ def body(S, t, part):
     rec = _install_backend(S, t, light, part["backend"])
     other = m.lights["l_rgb2"]
     rec_other = _install_backend(S, t, other, part["backend"]) if part["backend"] == "batch" else None
+    palette = PALETTE
+    factor = part.get("brightness")
+    if factor is not None:
+        # global brightness setting (exact in binary): every channel is scaled with int(x * factor) before it goes to the hardware.
+        # The palette contains colours whose corrected value equals another colour's uncorrected value.
+        m.light_controller.brightness_factor = factor
+        palette = PALETTE_B
     model = {}        # key -> (priority, colour)
+    lingering = []    # colours of removed/replaced entries that may still contribute to a running fade
+    fade_end = [t.loop.time()]          # instant at which the last fade issued so far ends: afterwards nothing lingers
     pin = part.get("pin", {})
 
     def choice(name, n):
@@ -131,6 +141,9 @@ def body(S, t, part):
 
     def boolean(name):
         return pin[name] if name in pin else S.bool(name)
+
+    def integer(name, lo, hi):
+        return pin[name] if name in pin else S.int(name, lo, hi)
 
     def fade_ms(name):
         # a concrete duration keeps the interpolation linear in the remaining symbolic instants (much cheaper paths)
@@ -140,8 +153,8 @@ def body(S, t, part):
     for i, op in enumerate(ops):
         now = t.loop.time()
         if op == "color":
-            col = PALETTE[(i + part.get("rot", 0)) % len(PALETTE)] if "rot" in part else PALETTE[S.choice("colour%d" % i, len(PALETTE))]
-            prio = S.int("priority%d" % i, -3, 20)
+            col = palette[(i + part.get("rot", 0)) % len(palette)] if "rot" in part else palette[S.choice("colour%d" % i, len(palette))]
+            prio = integer("priority%d" % i, -3, 20)
             key = KEYS[choice("key%d" % i, len(KEYS))]
             fade = fade_ms("fade_ms%d" % i) if boolean("fades%d" % i) else 0
             for k2, (p2, _) in model.items():
@@ -149,6 +162,12 @@ def body(S, t, part):
                     S.assume(p2 != prio)
             if key in model:
                 S.assume(prio >= model[key][0])
+            if now > fade_end[0]:
+                lingering.clear()
+            if key in model and (fade > 0 or now <= fade_end[0]):
+                lingering.append(model[key][1])
+            if fade > 0:
+                fade_end[0] = max(fade_end[0], now + fade / 1000.0)
             light.color(list(col), fade_ms=fade, priority=prio, key=key)
             model[key] = (prio, col)
             n_eff += 1
@@ -158,20 +177,38 @@ def body(S, t, part):
         elif op == "remove":
             key = KEYS[choice("key%d" % i, len(KEYS))]
             fade = fade_ms("fade_ms%d" % i) if boolean("fades%d" % i) else 0
+            if now > fade_end[0]:
+                lingering.clear()
+            if key in model:
+                is_top = all(p2 < model[key][0] for k2, (p2, _) in model.items() if k2 != key)
+                if fade > 0:
+                    lingering.append(model[key][1])
+                    fade_end[0] = max(fade_end[0], now + fade / 1000.0)
+                elif not is_top and now <= fade_end[0]:
+                    lingering.append(model[key][1])      # a fade above it may have started from a blend that contains this colour
             light.remove_from_stack_by_key(key, fade_ms=fade)
             model.pop(key, None)
         elif op == "clear":
             light.clear_stack()
             model.clear()
+            lingering.clear()
+            fade_end[0] = now
         gap = S.real("gap%d" % i, 0, 2.5)
         t.advance_time_and_run(gap)
         # while fades run the logical colour stays inside the hull of the colours involved
         cur = light.get_color()
-        involved = [c for _, c in model.values()] + [(0, 0, 0)] + list(PALETTE)
+        ts = t.loop.time()
+        S.assume(ts != fade_end[0])
+        if ts > fade_end[0]:
+            lingering.clear()
+        involved = [c for _, c in model.values()] + [(0, 0, 0)] + lingering
         for ch, name in enumerate(("red", "green", "blue")):
             v = getattr(cur, name)
-            if v < 0 or v > 255:
-                raise Violation("fade-stays-between-endpoints", "_get_color_and_fade", "channel %s = %s" % (name, v))
+            lo_c = min(c[ch] for c in involved)
+            hi_c = max(c[ch] for c in involved)
+            if v < lo_c or v > hi_c:
+                raise Violation("fade-stays-between-endpoints", "_get_color_and_fade", "after op %d %s: channel %s = %s lies outside [%s, %s], the range of the colours involved %s (stack %s)" % (
+                    i, op, name, v, lo_c, hi_c, involved, [(e.key, e.priority) for e in light.stack]))
     t.advance_time_and_run(4)
     # ---- final state ------------------------------------------------------------------------------
     want = (0, 0, 0)
@@ -185,6 +222,8 @@ def body(S, t, part):
         clause = "removing-all-turns-off" if not model else "logical-colour-is-highest-priority-entry"
         raise Violation(clause, "Light._add_to_stack" if model else "Light.remove_from_stack_by_key",
                         "logical colour %s, expected %s; model %s; stack %s" % (got, want, model, [(e.key, e.priority) for e in light.stack]))
+    if factor is not None:
+        want = tuple(int(x * factor) for x in want)
     chans = {"red": want[0], "green": want[1], "blue": want[2], "white": min(want)}
     style = part.get("rgbw_style")
     if style == "white_only":           # any shade of white goes to the white channel only
@@ -217,6 +256,15 @@ def scenarios(tier):
             for s in seqs:
                 parts.append(dict(light="l_rgb", backend=b, ops=s, rot=len(parts)))
         parts.append(dict(light="l_w", backend="soft", ops=["color", "color", "remove"], rot=1))
+        # a key removed with a fade-out while a higher entry covers it, then the covering entry goes: the light must stay between the
+        # fading colour and the one beneath
+        parts.append(dict(light="l_rgb", backend="virtual", ops=["color", "color", "color", "remove", "remove"], rot=0,
+                          pin={"key0": 0, "key1": 1, "key2": 2, "key3": 1, "key4": 2, "fades0": False, "fades1": False, "fades2": False, "fades3": True, "fades4": False,
+                               "fade_ms3": 1500.0, "priority0": 1, "priority1": 2, "priority2": 3}))
+        for b in ("virtual", "soft", "direct", "batch"):
+            parts.append(dict(light="l_rgb", backend=b, ops=["color", "color", "remove"], rot=0, brightness=0.5,
+                              pin={"key0": 0, "key1": 0, "fades0": False, "fades1": True, "fade_ms1": 400.0}))
+            parts.append(dict(light="l_rgb", backend=b, ops=["color", "color", "color"], rot=len(parts), brightness=0.5))
         # a long fade (longer than the hardware's own 255 ms: sent in steps) interrupted by a return to the colour underneath
         for b in ("batch", "direct", "soft"):
             parts.append(dict(light="l_rgb", backend=b, ops=["color", "color", "remove"], rot=len(parts),
@@ -229,8 +277,12 @@ def scenarios(tier):
         for b in ("virtual", "soft", "direct", "batch"):
             for s in itertools.product(["color", "remove", "clear"], repeat=3):
                 parts.append(dict(light="l_rgb", backend=b, ops=["color"] + list(s)))
+        for b in ("virtual", "soft", "direct", "batch"):
+            for s3 in (["color", "color", "remove"], ["color", "color", "color"], ["color", "remove", "color"]):
+                parts.append(dict(light="l_rgb", backend=b, ops=["color"] + s3, brightness=0.5))
+                parts.append(dict(light="l_rgb", backend=b, ops=["color"] + s3, brightness=0.25, pin={"fade_ms1": 300.0, "fade_ms2": 1200.0, "fade_ms3": 100.0}))
         for style in ("white_only", "min_rgb", "duck_rgb"):
             for b in ("virtual", "soft"):
                 parts.append(dict(light="l_rgbw", backend=b, ops=["color", "color", "remove", "color"], rgbw_style=style))
-    pb = 55 if tier == "quick" else 300
+    pb = 40 if tier == "quick" else 300
     return [Scenario("stack", setup, body, parts, teardown=teardown, part_budget=pb, per_path_timeout=30)]
